@@ -60,6 +60,16 @@ func run(c *vkit.Collector, rng *vkit.Rng, budget int) {
 			doPair(c, rng, sp[rng.Intn(2)], sp[rng.Intn(2)], "special/special", true)
 		}
 	}
+	// bounds: B is A without one (nearly collinear) vertex, so the regions almost coincide and the
+	// cached rectangles differ by rounding only; Contains must not depend on which is larger
+	for k := 0; k < 600*budget; k++ {
+		a, b := boundPair(rng)
+		if a == nil {
+			continue
+		}
+		c.Class("boundpair")
+		doBoundPair(c, a, b)
+	}
 	// polygons: nesting discovery, relations
 	for k := 0; k < 40*budget; k++ {
 		doPolygons(c, rng, k)
@@ -231,3 +241,53 @@ func clone(v *lv) *s2.Loop {
 
 // report forwards a violation found on the implementation.
 func report(c *vkit.Collector, kind, desc string, replay interface{}) { c.Violate(kind, desc, replay) }
+
+// boundPair: a small ring and the same ring with the midpoint of one edge inserted.
+func boundPair(rng *vkit.Rng) (a, b []s2.Point) {
+	var v []s2.Point
+	if rng.Bool() {
+		v = regularPts(randPoint(rng), rng.Range(0.05, 70), 3+rng.Intn(5))
+	} else {
+		K := 3 + rng.Intn(4)
+		g := newGrid(rng, K, 2, []float64{0.01, 1, 20, 60}[rng.Intn(4)], rng.Bool())
+		v = g.ring(1, 0, randLevels(rng, K, 2))
+	}
+	i := rng.Intn(len(v))
+	m := s2.Point{Vector: v[i].Add(v[(i+1)%len(v)].Vector).Normalize()}
+	w := append(append(append([]s2.Point{}, v[:i+1]...), m), v[i+1:]...)
+	if !validLoop(v) || !validLoop(w) {
+		return nil, nil
+	}
+	if rng.Bool() {
+		return w, v
+	}
+	return v, w
+}
+
+// doBoundPair: the relation laws and the brute-force specification on (A, B), both orders.
+func doBoundPair(c *vkit.Collector, a, b []s2.Point) {
+	pl := newPool()
+	A, B := pl.mk(s2.LoopFromPoints(a)), pl.mk(s2.LoopFromPoints(b))
+	iA, iB := pl.inverted(A), pl.inverted(B)
+	replay := map[string]interface{}{"class": "boundpair", "A": coords(A.pts), "B": coords(B.pts)}
+	c.Eval(fmt.Sprintf("boundpair %v|%v", coords(A.pts), coords(B.pts)), true)
+	for _, xy := range [][4]*lv{{A, B, iA, iB}, {B, A, iB, iA}, {iA, iB, A, B}, {iB, iA, B, A}} {
+		x, y, ix, iy := xy[0], xy[1], xy[2], xy[3]
+		cont, isect := x.loop.Contains(y.loop), x.loop.Intersects(y.loop)
+		if sc := specContains(x, y); sc != cont {
+			report(c, "Loop.Contains.spec", fmt.Sprintf("Contains=%v, brute-force specification=%v [boundpair]", cont, sc), replay)
+		}
+		if si := specIntersects(x, y); si != isect {
+			report(c, "Loop.Intersects.spec", fmt.Sprintf("Intersects=%v, brute-force specification=%v [boundpair]", isect, si), replay)
+		}
+		if cont != iy.loop.Contains(ix.loop) {
+			report(c, "Loop.Contains.compl", "X.Contains(Y) != Inv(Y).Contains(Inv(X)) [boundpair]", replay)
+		}
+		if isect != !ix.loop.Contains(y.loop) {
+			report(c, "Loop.Intersects.compl", "X.Intersects(Y) != !Inv(X).Contains(Y) [boundpair]", replay)
+		}
+		if isect != y.loop.Intersects(x.loop) {
+			report(c, "Loop.Intersects.sym", "X.Intersects(Y) != Y.Intersects(X) [boundpair]", replay)
+		}
+	}
+}
